@@ -46,7 +46,9 @@ func (obj *Hmm) baumWelchThread(hmm1, hmm2 *Hmm, data HmmDataRecord, meta ConstV
   // thread is executed
   if tmp.init == false {
     pi.Map(func(x Scalar) { x.SetFloat64(math.Inf(-1)) })
-    tr.Map(func(x Scalar) { x.SetFloat64(math.Inf(-1)) })
+    if tr != nil {
+      tr.Map(func(x Scalar) { x.SetFloat64(math.Inf(-1)) })
+    }
     for c := 0; c < len(gamma); c++ {
       gamma[c].Map(func(x Scalar) { x.SetFloat64(math.Inf(-1)) })
     }
